@@ -511,6 +511,25 @@ class _IndexAsCubeSlicer:
         if item[common_axis] == slice(None):
             # Create item for slicing through the default API and slice.
             return self.seq[tuple([slice(None)] + item)]
+        # Interpret the common axis item as numpy would for an axis whose length
+        # is that of all the cubes concatenated along the common axis.
+        cube_like_length = sum(common_axis_lengths)
+        if isinstance(item[common_axis], numbers.Integral):
+            if not -cube_like_length <= item[common_axis] < cube_like_length:
+                raise IndexError(f"index {item[common_axis]} is out of bounds for common axis "
+                                 f"with size {cube_like_length}")
+            if item[common_axis] < 0:
+                item[common_axis] += cube_like_length
+        elif isinstance(item[common_axis], slice):
+            if item[common_axis].step not in (None, 1):
+                raise IndexError("Slicing the common axis with a step is not supported.")
+            start, stop, _ = item[common_axis].indices(cube_like_length)
+            if stop <= start:
+                # No cube contributes to the result.
+                new_common_axis = common_axis - sum([isinstance(i, numbers.Integral)
+                                                     for i in item[:common_axis]])
+                return type(self.seq)([], meta=self.seq.meta, common_axis=new_common_axis)
+            item[common_axis] = slice(start, stop)
         if isinstance(item[common_axis], numbers.Integral):
             # If common_axis item is an int or return an NDCube with dimensionality of N-1
             sequence_index, common_axis_index = \
